@@ -44,6 +44,15 @@ Inductive cont := ContRest | ContNone.                   (* recursive call conti
 (** Macro bodies. *)
 Inductive mkind := MEvent | MSpan.
 Inductive branch := InThen | InElse | Outside.           (* relative to `if <guard> { .. } else { .. }` *)
+(** A `valueset!` occurrence may sit in the `$value_set` argument of `__tracing_log!` or in the block of
+    `if_log_enabled!`: code that exists only with the cargo feature `log`. *)
+Inductive logwrap := NoLog | InTracingLog | InIfLog.
+Inductive logmode := LogOff | LogOn | LogAlways.          (* features: none / `log` / `log` + `log-always` *)
+Inductive lcond :=
+| LStaticOk                                              (* level_to_log!(lvl) <= log::STATIC_MAX_LEVEL *)
+| LNoDispatchEver                                        (* !dispatch::has_been_set() *)
+| LMaxLevelOk                                            (* level <= log::max_level() *)
+| LLoggerEnabled.                                        (* log::logger().enabled(&log_meta) *)
 Inductive dispatch := DEventDispatch | DEventChildOf | DSpanNew | DSpanChildOf.
 Inductive msgpos := MsgFirst | MsgLast.
 Inductive gconj := GStaticMax | GCurrentMax | GInterestNotNever | GAlwaysOrEnabled.
